@@ -30,6 +30,10 @@ func CrashTreeSpec(r *lib.Rng) TreeSpec {
 	t.Blocks = append(t.Blocks, BlockSpec{Parent: 16, Diff: diffChoices[0], NTx: r.Range(1, 2), Height: 15})
 	// a shared transaction also on the trunk side (height 13) so that the tx index entry moves between branches
 	t.Blocks[12].Shared = []int{0}
+	// one block of the armed part of every script carries more than 1 MiB of transaction data (a block whose index
+	// entries do not fit a size-bounded write batch): trunk height 12 and side-branch height 13
+	t.Blocks[11].Big = 14
+	t.Blocks[15].Big = 14
 	return t
 }
 
